@@ -309,3 +309,29 @@ def systematic_codes():
                         a_len = len(a)
                     out.append((f"sys-{exitk}-{cname}-{tname}-{'jd' if follow_jd else 'plain'}", a + follow + far))
     return out
+
+
+LITERALS = [0, 1, 2, 30, 31, 32, 33, 255, 256, 257, (1 << 64) - 1, 1 << 64, (1 << 255) - 1, 1 << 255, (1 << 256) - 1]
+
+
+def literal_operand_codes(ops=None, huge_exp=False):
+    """push b; push a; OP; jump; jumpdest; stop for every binary pure opcode and every pair (a, b) in which
+    one operand runs over the boundary literals and the other is 5 (a = first operand = top of stack):
+    translation arms with special cases for literal operands (shift amounts, byte indices, signextend sizes,
+    exponents) are exercised on every threshold.  Returns (name, code)."""
+    out = []
+    for op in (ops or PURE_BIN):
+        for v in LITERALS:
+            for first in (True, False):
+                if op == 0x0A and not first and v == (1 << 64) - 1 and not huge_exp:
+                    continue          # the MODEL's term for a literal exponent e is a tree with ~2e leaves
+                a, b = (v, 5) if first else (5, v)
+                out.append((f"lit-{op:02x}-{'a' if first else 'b'}", push(b) + push(a) + bytes([op]) + b"\x56\x5b\x00"))
+    return out
+
+
+HARD_CODES = [
+    # targets the solver cannot decide within its budget: every edge must be kept
+    ("hard-mulmod", bytes.fromhex("5b60403560203560003509565b00")),
+    ("hard-mulmod-branch", bytes.fromhex("60403560203560003509600c575b005b00")),
+]
